@@ -7,6 +7,7 @@ package main
 // Iteration over maps is outside the subset.
 
 import (
+	"fmt"
 	"go/types"
 
 	"golang.org/x/tools/go/ssa"
@@ -109,6 +110,24 @@ func (x *Exec) mapUpdate(st *State, i *ssa.MapUpdate) {
 	kv := x.value(st, i.Key)
 	vv := x.value(st, i.Value)
 	x.safe(st, "nil", Ne(mv.T, IntC(0)), "assignment to entry in nil map", i.Pos())
+	if x.fc != nil && len(x.fc.MapSites) > 0 && len(st.frames) == 1 {
+		env := x.contractEnv(st, nil, st.entry)
+		x.bindLocals(env, st.top(), nil)
+		env.vars["$map"] = mv
+		env.vars["$key"] = kv
+		env.vars["$value"] = vv
+		n := 0
+		for _, b := range i.Parent().Blocks {
+			for _, in := range b.Instrs {
+				if u, ok := in.(*ssa.MapUpdate); ok && u != i && u.Pos() < i.Pos() {
+					n++
+				}
+			}
+		}
+		for _, cl := range x.fc.MapSites {
+			x.assert(st, fmt.Sprintf("site:mapupdate#%d:%s", n, cl.Label), env.evalBool(cl.Expr), cl.Text, i.Pos())
+		}
+	}
 	key := x.mapKeyTerm(st.heap, kv, m.Key())
 	x.registerMapKeys(mt)
 	base := "M:" + typeName(mt)
